@@ -141,6 +141,9 @@ func isnew[T any](x []T) bool { return true }
 // isnewobj(p): p points to an object allocated during the call.
 func isnewobj[T any](p *T) bool { return p != nil }
 
+// isnewmap(m): the map was made during the call.
+func isnewmap[K comparable, V any](m map[K]V) bool { return m != nil }
+
 // samebase(x, y): x and y share their backing array and x starts where y starts.
 func samebase(x, y []byte) bool { return cap(x) == 0 || cap(y) == 0 || &x[:1][0] == &y[:1][0] }
 
